@@ -900,7 +900,9 @@ class ODLParser(PVLParser):
         on numeric values, any others will result in a ValueError.
         """
 
-        if isinstance(value, (int, float, self.decoder.real_cls)):
+        if isinstance(
+            value, (int, float, self.decoder.real_cls)
+        ) and not isinstance(value, bool):
             return super().parse_units(value, tokens)
 
         else:
